@@ -58,7 +58,7 @@ def extra(chk, thorough):
                     steps = []
                     for e in evs:
                         if e == ("ack", -1):
-                            e = ("ack", r.proto._pack_seq)
+                            e = ("ack", r.cur_seq())
                         real.append(e)
                         steps.append(T.canon_step(r.step(e)))
                 finally:
@@ -103,7 +103,7 @@ def extra_reset(chk):
                     steps = []
                     for e in evs:
                         if e == ("ack", -1):
-                            e = ("ack", r.proto._pack_seq)
+                            e = ("ack", r.cur_seq())
                         steps.append(r.step(e))
                     during = sum(st.count("L") for st in steps)
                     done = r.real_reset.done()
@@ -141,7 +141,7 @@ def extra_reset(chk):
                 steps = []
                 for e in evs:
                     if e == ("ack", -1):
-                        e = ("ack", r.proto._pack_seq)
+                        e = ("ack", r.cur_seq())
                     steps.append(r.step(e))
                 during = sum(st.count("L") for st in steps)
                 done = r.real_reset.done()
